@@ -44,6 +44,7 @@ WANTED = [
     ("vi.load_vi_bindings._a", "a"), ("vi.load_vi_bindings._A", "A"), ("vi.load_vi_bindings._delete", "x"),
     ("vi.load_vi_bindings._delete_before_cursor", "X"), ("vi.load_vi_bindings._undo", "u"),
     ("vi.load_vi_bindings._arg", "2"), ("vi.load_vi_bindings._arg", "3"),
+    ("vi.load_vi_bindings._insert_text_multiple_cursors", "<any>"),
 ]
 
 KIND_ATTRS = {"undo": 1, "redo": 2, "save_to_undo_stack": 3}
